@@ -472,9 +472,8 @@ fn used_imports<'a, 'b: 'a>(
                 // We can have "*" wildcard here. We need to add all.
                 used_imports
                     .entry(&referenced_import.base_crate)
-                    .and_modify(|names: &mut BTreeSet<&str>| {
-                        names.extend(type_names.iter().map(|s| s.as_str()))
-                    });
+                    .or_insert_with(BTreeSet::<&str>::new)
+                    .extend(type_names.iter().map(|s| s.as_str()));
             } else if let Some(ty_name) = type_names.get(&referenced_import.type_name) {
                 // Add referenced import for each matching type.
                 used_imports
